@@ -18,7 +18,15 @@ where
     V: FixedSizeVariation,
 {
     pub(crate) fn equals(&self, other: &(V, I)) -> bool {
-        self.index == other.1 && self.value == other.0
+        // an echo matches when its octets do: 0.0 and -0.0 are different objects, a NaN is the same as itself
+        let mut lhs = [0u8; 32];
+        let mut rhs = [0u8; 32];
+        let mut lhs = WriteCursor::new(&mut lhs);
+        let mut rhs = WriteCursor::new(&mut rhs);
+        if self.value.write(&mut lhs).is_err() || other.0.write(&mut rhs).is_err() {
+            return false;
+        }
+        self.index == other.1 && lhs.written() == rhs.written()
     }
 }
 
